@@ -1,33 +1,34 @@
 // C15 — transaction execution is atomic.
 //
 // A probe native contract (engine/lib/probe) interprets tiny programs
-//   Put k v | Del k | Get k | MerkleVal d | Notify s | Call sub | Fail
+//
+//	Put k v | Del k | Get k | MerkleVal d | Notify s | Call sub | Fail
+//
 // inside the REAL NativeService / CacheDB / HandleInvokeTransaction / executeBlock. Blocks of probe
 // transactions are executed through the real on-disk ledger (LedgerStoreImp.ExecuteBlock, SubmitBlock) and
 // ExecuteResult{WriteSet, CrossHashes, Notify} + post-submit storage / event store / cross-state store are
 // compared with a boring reference: the fold of the SUCCESSFUL programs only.
 //
 // Spaces (all exhaustive within the stated bounds):
-//   A  one-transaction blocks: every program of length <= L over {PutA PutB DelA GetA GetB MerkleVal Notify Fail}
-//      ∪ {Call(sub)}, sub = every sequence of length <= 2 over the same flat alphabet (Fail at every position,
-//      also inside the callee, after writes, after MerkleVal); plus all doubly nested programs of a fixed shape.
-//   B  blocks of 2 and 3 transactions in every order (ordered tuples with repetition) over a body set,
-//      every transaction starting with the read prologue [Get a, Get b].
-//   C  committed chains: blocks are really submitted one after another; after each submit the persistent
-//      contract storage, the event store and the cross-state store are compared with the reference.
-//   D  real native calls (node_manager register/unregister/approve, failing and succeeding) mixed with probe
-//      transactions; metamorphic oracle: deleting the failed transactions from a block changes nothing.
+//
+//	A  one-transaction blocks: every program of length <= L over {PutA PutB DelA GetA GetB MerkleVal Notify Fail}
+//	   ∪ {Call(sub)}, sub = every sequence of length <= 2 over the same flat alphabet (Fail at every position,
+//	   also inside the callee, after writes, after MerkleVal); plus all doubly nested programs of a fixed shape.
+//	B  blocks of 2 and 3 transactions in every order (ordered tuples with repetition) over a body set,
+//	   every transaction starting with the read prologue [Get a, Get b].
+//	C  committed chains: blocks are really submitted one after another; after each submit the persistent
+//	   contract storage, the event store and the cross-state store are compared with the reference.
+//	D  real native calls (node_manager register/unregister/approve, failing and succeeding) mixed with probe
+//	   transactions; metamorphic oracle: deleting the failed transactions from a block changes nothing.
 package main
 
 import (
-	"bytes"
 	"crypto/sha256"
 	"encoding/hex"
 	"encoding/json"
 	"fmt"
 	"os"
 	"runtime"
-	"runtime/debug"
 	"sort"
 	"strings"
 	"sync"
@@ -35,8 +36,8 @@ import (
 	"time"
 
 	"github.com/polynetwork/poly/common"
-	scom "github.com/polynetwork/poly/core/store/common"
 	"github.com/polynetwork/poly/core/store"
+	scom "github.com/polynetwork/poly/core/store/common"
 	"github.com/polynetwork/poly/core/store/ledgerstore"
 	"github.com/polynetwork/poly/core/types"
 	"github.com/polynetwork/poly/native/event"
@@ -524,7 +525,7 @@ func parallel(pool []*probe.Worker, gen func(emit func(job any) bool), f func(w 
 	n := 0
 	gen(func(job any) bool {
 		n++
-		if n%16 == 0 && (r.Expired() || time.Now().After(softDeadline)) { // the enumeration phases stop at 70% of the budget so that C and D always run
+		if n%16 == 0 && (r.Expired() || time.Now().After(softDeadline)) { // the enumeration phases stop at 85% of the budget so that C and D always run
 			atomic.StoreInt32(&stop, 1)
 			return false
 		}
@@ -569,8 +570,7 @@ func main() {
 	if r.Quick() {
 		subAlpha = []string{"PA", "DA", "GA", "MV", "NT", "FL"}
 	}
-	_ = debug.SetGCPercent
-	softDeadline = time.Now().Add(time.Duration(0.7 * float64(budget(r))))
+	softDeadline = time.Now().Add(time.Duration(0.85 * float64(budget(r))))
 	maxCalls := 1
 	bodyAlpha := []string{"PA", "PB", "DA", "MV", "NT", "FL", "C1", "C2"}
 	if r.Thorough() {
@@ -818,9 +818,9 @@ func main() {
 	cov["phase_seconds"] = phase
 	cov["bounds"] = map[string]any{"A_max_len": L, "A_sub_len": 2, "A_sub_alphabet": subAlpha, "A_max_calls": maxCalls, "B_body_alphabet": bodyAlpha, "B_body_len": 2,
 		"B_bodies": len(bodies), "B3_body_alphabet": body3Alpha, "B3_bodies": len(bodies3), "A_ExecuteBlock_max_len": LReal, "block_sizes": "1,2,3", "prestates": len(prestates), "workers": nW}
-	cov["states"] = len(modelState)                // distinct reference-model storage states reached
-	cov["transitions"] = blocksRun                 // blocks executed by the real code (pre-state -> post-state)
-	cov["traces_validated_against_impl"] = txsRun  // transactions whose real outcome was compared with the reference
+	cov["states"] = len(modelState)               // distinct reference-model storage states reached
+	cov["transitions"] = blocksRun                // blocks executed by the real code (pre-state -> post-state)
+	cov["traces_validated_against_impl"] = txsRun // transactions whose real outcome was compared with the reference
 	cov["max_depth"] = 3
 	cov["reads_checked"] = readsChecked
 	cov["nested_crosshash_order"] = map[string]int64{"callee-first(prepend)": nestedOrderPrepend, "program-order": nestedOrderOther}
@@ -849,11 +849,6 @@ func budget(r *ev.Run) time.Duration {
 		return 4 * time.Minute
 	}
 	return 40 * time.Minute
-}
-
-func init() {
-	_ = os.Getenv
-	_ = bytes.Equal
 }
 
 // commitAndCheck really submits the block and compares the persistent stores with the reference.
